@@ -235,6 +235,17 @@ def pair_laws(ctx, st, S, T, want_sym=False):
             if not (is_num(v1) and is_num(v2)) or abs(v1 - ref_) > tol_ or abs(v2 - ref_) > tol_:
                 bad("mixed-dtype-symmetry", "%s of an integer array and a fractional float array depends on the argument order / differs from the all-float call" % which,
                     [v1, v2], ref_)
+    # variant 4b (smaller strata): the diagrams given as Python lists of their rows (1-D arrays), reordered
+    if k <= 8 and X and Y:
+        import persim
+
+        Xr = [np.array(p, dtype=float) for p in X[::-1]]
+        Yr = tuple(np.array(p, dtype=float) for p in Y)
+        bl, _ = call_warn(ctx, persim.bottleneck, Xr, Yr)
+        wl, _ = call_warn(ctx, persim.wasserstein, Xr, Yr)
+        ctx.valid(2)
+        if not (is_num(bl) and is_num(wl)) or bl != b or abs(wl - w) > wtol(w):
+            bad("row-list-container", "distances of diagrams given as lists of row arrays (reordered) differ from those of the arrays", [bl, wl], [b, w])
     # variant 5 (smaller strata): X against a copy of itself scaled by (1 + 2^-25): every point goes to its own
     # copy (the moves are far smaller than any gap), so both values are known in closed form and 0 < d_B <= W
     if k <= 8 and S == T and any(p[1] > p[0] for p in X):
